@@ -59,7 +59,7 @@ let item_of s =
     in
     { imode = mode; itext = text }
 
-(* operator trees in Polish notation: B<i>,l,r  U<i>,x  P,x  A<k> *)
+(* operator trees in Polish notation: B<i>,l,r  U<i>,x  P,x  C<0|1>,x  A<k> *)
 let parse_polish s =
   let toks = ref (String.split_on_char ',' s) in
   let next () = match !toks with t :: r -> toks := r; t | [] -> failwith "polish: short" in
@@ -71,6 +71,7 @@ let parse_polish s =
     | 'B' -> let o = List.nth binops (arg ()) in let l = go () in let r = go () in EBin (o, l, r)
     | 'U' -> let u = List.nth unops (arg ()) in EUn (u, go ())
     | 'P' -> EParen (go ())
+    | 'C' -> let k = if arg () = 0 then CBare else CParam in let x = go () in ECast (x, k)
     | _ -> failwith "polish: bad token"
   in
   let e = go () in
